@@ -1,6 +1,11 @@
 package ircserver
 
-import "gopkg.in/sorcix/irc.v2"
+import (
+	"sort"
+
+	"github.com/robustirc/robustirc/internal/robust"
+	"gopkg.in/sorcix/irc.v2"
+)
 
 func init() {
 	Commands["server_QUIT"] = &ircCommand{
@@ -13,11 +18,19 @@ func (i *IRCServer) cmdServerQuit(s *Session, reply *Replyctx, msg *irc.Message)
 	if msg.Prefix == nil {
 		i.deleteSessionLocked(s, reply.msgid)
 		// For services, we also need to delete all sessions that share the
-		// same .Id, but have a different .Reply.
-		for id, session := range i.sessions {
+		// same .Id, but have a different .Reply. Map iteration order is
+		// random, but all nodes must generate identical output, so
+		// process these sessions in sorted order.
+		ids := make([]robust.Id, 0)
+		for id := range i.sessions {
 			if id.Id != s.Id.Id || id.Reply == 0 {
 				continue
 			}
+			ids = append(ids, id)
+		}
+		sort.Slice(ids, func(a, b int) bool { return ids[a].Reply < ids[b].Reply })
+		for _, id := range ids {
+			session := i.sessions[id]
 			i.sendCommonChannels(session, reply, &irc.Message{
 				Prefix:  &session.ircPrefix,
 				Command: irc.QUIT,
